@@ -26,7 +26,8 @@ LEVEL_NOTE = ('Trusted: mc/gf2.py; non-triviality is decided by anticommutation 
               'larger weight. Deformed codes inherit d (weight-preserving relabelling, C08).')
 RULE = ('every (class, family size) with n <= bound whose half-weight table sum_{w<=ceil((d-1)/2)} C(n,w)[*3^w] is '
         'under the cap; one case per (class, size); non-trivial = cases with d >= 2 (a non-empty search space); '
-        'evaluations = table entries enumerated')
+        'evaluations = table entries enumerated; every deformed version of a covered code must report the same d; '
+        'per-class sessions repeat the search for several sizes in one process')
 ASSUMPTIONS = ['listed logical operators are valid (C01)', 'GF(2) reference mc/gf2.py']
 BOUNDS = {'quick': {'max_n': 200, 'l_max_2d': 7, 'l_max_3d': 4, 'cap': 400000},
           'thorough': {'max_n': 400, 'l_max_2d': 9, 'l_max_3d': 6, 'cap': 3000000}}
